@@ -236,6 +236,18 @@ CLAIMS = {
         "sampled), at lock-acquisition granularity. One defect fixed (2ef43c1 torn read), one known finding "
         "(KF-C05-drain-resurrects-deleted). The server binary's query RPC assembles vector and metadata separately too (not driven here).",
    design="§3 C05"),
+ "C09": dict(
+   engine="conc",
+   technique="Lean 4 proof (step-level protocol model: without the lock a snapshot loses an acknowledged write - witness; with the lock discipline every schedule is a sequential history; sequential histories are lossless - C02) + controlled-scheduler exploration of writers vs snapshotter on the real engine with recovery after every schedule",
+   text="C09_unprotected_snapshot_loses_a_write (witness), C09_protected_is_sequential (any schedule, any length), "
+        "C09_protected_schedules_lose_nothing, C09_sequential_histories_are_lossless (= C02_restart_lossless over the full "
+        "persistence model incl. automatic snapshots, rotation, compaction, tombstone compaction). Search: 1-2 writer threads vs a "
+        "snapshotting thread, snapshot intervals {off,1,2,3}, rotation {off,1,150 bytes}, DFS with preemption bound and random "
+        "schedules; after each: real strict recover == final live collection.",
+   note="Partial: that the real critical sections are what the discipline assumes is exercised by the search (bounded / sampled, "
+        "lock granularity), not proved; file I/O is not a scheduling point; 'a stale snapshot never replaces a newer one' is covered by "
+        "the sequential model's manifest invariant (snapSeq monotone in DInv) and by the search's recover comparison.",
+   design="§3 C09"),
 }
 
 NOT_APPLICABLE = {
